@@ -219,6 +219,12 @@ def IExpr.readsOut (i : Nat) : IExpr → Bool
   | .bin _ _ l r => l.readsOut i || r.readsOut i
   | _ => false
 
+/-- The expression reads no byte of a string / raw output by index. -/
+def IExpr.idxFree : IExpr → Bool
+  | .idx _ _ => false
+  | .bin _ _ l r => l.idxFree && r.idxFree
+  | _ => true
+
 /-- Forget which nodes were written as one n-ary chain (the value does not depend on it). -/
 def IExpr.unflat : IExpr → IExpr
   | .idx i e => .idx i e.unflat
